@@ -17,6 +17,15 @@ Theorem C08_toposort_sound : forall tbl dict o names,
 Proof. exact toposort_sound_lemma. Qed.
 Print Assumptions C08_toposort_sound.
 
+(* the code of /repo HEAD (93e79d6) iterates sorted(deps): the instance at the identity oracle *)
+Theorem C08_toposort_sound_sorted : forall tbl dict names,
+  acyclic tbl -> NoDup names -> incl names dict ->
+  (forall n, In n names -> incl (D tbl n) names) ->
+  exists out, toposort tbl dict id_oracle names = Some out /\ Permutation out names /\
+    forall n d, In n names -> In d (D tbl n) -> exists a b, out = (a ++ n :: b)%list /\ In d a.
+Proof. intros. apply toposort_sound_lemma; auto. Qed.
+Print Assumptions C08_toposort_sound_sorted.
+
 (* the rule of /repo HEAD (after the F11 fix): exclude = unpacked - used_as_mixins, then the worklist.
    The worklist NEVER runs out of fuel (fuel = number of fragment definitions + 1, provided the mixins of
    every fragment are defined fragments); every fragment an operation uses as a base, every fragment
